@@ -10,8 +10,8 @@ Helper lemmas and the two tactics used to prove that the interpreter `PQ.Src.exe
 * `src_eval [extra]` : symbolic evaluation — `simp only` with the equations of the interpreter, the monad laws of
   `Except`, register look-ups, and the `extra` lemmas (the generated terms to unfold, the model functions to unfold,
   call lemmas of callees already tied).
-  A `while` is NOT unfolded (`-Src.execStep.eq_9`: the ninth equation of `execStep` is the one for `.while`; should the
-  constructor order in `PQ/Model/Src.lean` change, adapt the index): loops are handled by the per-loop lemmas.
+  A `while` is NOT unfolded (the equations `es1 … es29` = `Src.execStep.eq_1 … eq_29` are listed without `eq_9`, the one for `.while`;
+  should the constructor order in `PQ/Model/Src.lean` change, adapt the list): loops are handled by per-loop lemmas.
 * `src_close` : closes an equation between two `do` blocks in `R` that perform the same reads in the same order:
   congruence under binds, case splits on the conditions, `simp_all` at the leaves.
 -/
@@ -41,8 +41,20 @@ theorem bind_congr_ok {α β : Type} {x : R α} {f g : α → R β} (h : ∀ a, 
   | error e => rfl
   | ok a => exact h a rfl
 
+theorem unwrapO_ok_iff {α : Type} (o : Option α) (site : Nat) (v : α) : unwrapO o site = .ok v ↔ o = some v := by
+  unfold unwrapO; split <;> simp_all
+
+theorem unwrapO_some {α : Type} (v : α) (site : Nat) : unwrapO (some v) site = .ok v := rfl
+
 theorem getU_ok_iff {α : Type} (a : Array α) (i site : Nat) (v : α) : getU a i site = .ok v ↔ a[i]? = some v := by
   unfold getU; split <;> simp_all
+
+/-- congruence under a `get_unchecked` read: the value read is the same at every site -/
+theorem getU_bind_congr {α β : Type} {a : Array α} {i site : Nat} {f g : α → R β}
+    (h : ∀ v, (∀ site', getU a i site' = .ok v) → f v = g v) : getU a i site >>= f = getU a i site >>= g := by
+  cases hx : getU a i site with
+  | error e => rfl
+  | ok v => exact h v (fun site' => by rw [getU_ok_iff] at hx ⊢; exact hx)
 
 /-- `x` (a run of the interpreter) agrees with `y` (the hand model): the same fault, or normal completion in a
 state that `rel`ates to the model's result -/
@@ -123,18 +135,18 @@ theorem callWith_eq (ex : Stmt → St P → R (St P × Flow P)) (prog : Prog) (f
 
 /-- a loop (or any statement) that ends the function: only the store matters -/
 theorem Agrees.fin_unit {x : R (St P × Flow P)} {y : R (Store P)}
-    (h : Agrees x y (fun st' s' => st'.s = s')) : x >>= fin = (fun s' => (s', Val.unit)) <$> y := by
+    (h : Agrees x y (fun st' s' => st'.s = s')) : x >>= fin = y >>= fun s' => pure (s', Val.unit) := by
   cases y with
   | error e => rw [Agrees.error_iff] at h; subst h; rfl
   | ok b => obtain ⟨st', hx, hr⟩ := h; subst hx; subst hr; rfl
 
-/-- a statement followed by the rest of the function -/
-theorem Agrees.bindFin {β γ : Type} {x : R (St P × Flow P)} {y : R β} {rel1 : St P → β → Prop}
-    {kx : St P → R (St P × Flow P)} {ky : β → R γ} {enc : γ → Store P × Val P}
-    (h : Agrees x y rel1) (hk : ∀ st' b, y = .ok b → rel1 st' b → kx st' >>= fin = enc <$> ky b) :
-    (x >>= fun r => match r.2 with
+/-- a statement followed by the rest of the function (both sides in `bind_assoc` normal form) -/
+theorem Agrees.bindFin {β : Type} {x : R (St P × Flow P)} {y : R β} {rel1 : St P → β → Prop}
+    {kx : St P → R (St P × Flow P)} {K : β → R (Store P × Val P)}
+    (h : Agrees x y rel1) (hk : ∀ st' b, y = .ok b → rel1 st' b → kx st' >>= fin = K b) :
+    (x >>= fun r => (match r.2 with
       | .normal => kx r.1
-      | fl => pure (r.1, fl)) >>= fin = enc <$> (y >>= ky) := by
+      | fl => pure (r.1, fl)) >>= fin) = y >>= K := by
   cases y with
   | error e => rw [Agrees.error_iff] at h; subst h; rfl
   | ok b => obtain ⟨st', hx, hr⟩ := h; subst hx; exact hk st' b rfl hr
@@ -169,6 +181,40 @@ theorem agreesB_of_map_eq {β : Type} (proj : St P → β) (x : R (St P × Flow 
       have := h.2
       simp only at this
       rw [this]
+
+/-- the same with a frame: the projection of the final state is a function `F` of the model's result -/
+theorem agreesB_of_map_eq' {β β' : Type} (proj : St P → β') (F : β → β') (x : R (St P × Flow P)) (y : R (β × Bool))
+    (h : (fun r => (proj r.1, r.2)) <$> x = (fun b => (F b.1, if b.2 then Flow.normal else Flow.brk)) <$> y) :
+    AgreesB x y (fun st' b => proj st' = F b) := by
+  unfold AgreesB
+  cases x with
+  | error e => cases y with
+    | error e' => simp [Functor.map, Except.map] at h; simp [h]
+    | ok b => simp [Functor.map, Except.map] at h
+  | ok r => cases y with
+    | error e' => simp [Functor.map, Except.map] at h
+    | ok b =>
+      simp only [Functor.map, Except.map, Except.ok.injEq, Prod.mk.injEq] at h
+      obtain ⟨st', fl⟩ := r
+      refine ⟨st', ?_, h.1⟩
+      have := h.2
+      simp only at this
+      rw [this]
+
+theorem agrees_of_map_eq' {β β' : Type} (proj : St P → β') (F : β → β') (x : R (St P × Flow P)) (y : R β)
+    (h : (fun r => (proj r.1, r.2)) <$> x = (fun b => (F b, Flow.normal)) <$> y) :
+    Agrees x y (fun st' b => proj st' = F b) := by
+  unfold Agrees
+  cases x with
+  | error e => cases y with
+    | error e' => simp [Functor.map, Except.map] at h; simp [h]
+    | ok b => simp [Functor.map, Except.map] at h
+  | ok r => cases y with
+    | error e' => simp [Functor.map, Except.map] at h
+    | ok b =>
+      simp only [Functor.map, Except.map, Except.ok.injEq, Prod.mk.injEq] at h
+      obtain ⟨st', fl⟩ := r
+      exact ⟨st', by simp_all, h.1⟩
 
 /-- one iteration of a `while` whose body either completes (the loop goes on) or `break`s -/
 theorem AgreesB.bindW {β γ : Type} {x : R (St P × Flow P)} {y : R (β × Bool)} {rel1 : St P → β → Prop}
@@ -242,6 +288,14 @@ theorem NoFuel.unwrapO {α : Type} (o : Option α) (site : Nat) : NoFuel (unwrap
 theorem NoFuel.decC (x site : Nat) : NoFuel (decC x site) := by
   unfold PQ.decC; split <;> (intro h; cases h)
 
+theorem NoFuel.swap (s : Store P) (a b : Nat) : NoFuel (s.swap a b) := by
+  unfold Store.swap
+  exact NoFuel.bind (NoFuel.getU _ _ _) fun _ _ => NoFuel.bind (NoFuel.getU _ _ _) fun _ _ =>
+    NoFuel.bind (NoFuel.swapC _ _ _ _) fun _ _ => NoFuel.bind (NoFuel.swapC _ _ _ _) fun _ _ => NoFuel.pure _
+theorem NoFuel.prioAt (s : Store P) (i : Nat) : NoFuel (s.prioAt i) := by
+  unfold Store.prioAt
+  exact NoFuel.bind (NoFuel.getU _ _ _) fun _ _ => NoFuel.bind (NoFuel.unwrapO _ _) fun _ _ => NoFuel.pure _
+
 /-- proves `NoFuel e` for a loop-free `do` block over the memory primitives; extra facts about callees can be
 supplied as hypotheses in the context (closed by `assumption`) -/
 macro "no_fuel" : tactic => `(tactic|
@@ -255,13 +309,11 @@ macro "no_fuel" : tactic => `(tactic|
     | exact NoFuel.swapRemoveC _ _ _
     | exact NoFuel.unwrapO _ _
     | exact NoFuel.decC _ _
+    | exact NoFuel.swap _ _ _
+    | exact NoFuel.prioAt _ _
     | (refine NoFuel.bind ?_ (fun _ _ => ?_))
-    | (refine NoFuel.ite (fun _ => ?_) (fun _ => ?_))))
-
-theorem NoFuel.swap (s : Store P) (a b : Nat) : NoFuel (s.swap a b) := by
-  unfold Store.swap; no_fuel
-theorem NoFuel.prioAt (s : Store P) (i : Nat) : NoFuel (s.prioAt i) := by
-  unfold Store.prioAt; no_fuel
+    | (refine NoFuel.ite (fun _ => ?_) (fun _ => ?_))
+    | (intro h; cases h; done)))
 
 /-! ## partial-correctness facts about model expressions -/
 
@@ -281,12 +333,42 @@ theorem Post.ite {α : Type} {c : Prop} [Decidable c] {a b : R α} {Q : α → P
   · exact ha ‹_›
   · exact hb ‹_›
 
+/-! the equations of `execStep`, one per constructor of `Stmt`, except the one for `.while` (the ninth) -/
+theorem es1 [LT P] [DecidableLT P] : type_of% (@Src.execStep.eq_1 P _ _) := @Src.execStep.eq_1 P _ _
+theorem es2 [LT P] [DecidableLT P] : type_of% (@Src.execStep.eq_2 P _ _) := @Src.execStep.eq_2 P _ _
+theorem es3 [LT P] [DecidableLT P] : type_of% (@Src.execStep.eq_3 P _ _) := @Src.execStep.eq_3 P _ _
+theorem es4 [LT P] [DecidableLT P] : type_of% (@Src.execStep.eq_4 P _ _) := @Src.execStep.eq_4 P _ _
+theorem es5 [LT P] [DecidableLT P] : type_of% (@Src.execStep.eq_5 P _ _) := @Src.execStep.eq_5 P _ _
+theorem es6 [LT P] [DecidableLT P] : type_of% (@Src.execStep.eq_6 P _ _) := @Src.execStep.eq_6 P _ _
+theorem es7 [LT P] [DecidableLT P] : type_of% (@Src.execStep.eq_7 P _ _) := @Src.execStep.eq_7 P _ _
+theorem es8 [LT P] [DecidableLT P] : type_of% (@Src.execStep.eq_8 P _ _) := @Src.execStep.eq_8 P _ _
+theorem es10 [LT P] [DecidableLT P] : type_of% (@Src.execStep.eq_10 P _ _) := @Src.execStep.eq_10 P _ _
+theorem es11 [LT P] [DecidableLT P] : type_of% (@Src.execStep.eq_11 P _ _) := @Src.execStep.eq_11 P _ _
+theorem es12 [LT P] [DecidableLT P] : type_of% (@Src.execStep.eq_12 P _ _) := @Src.execStep.eq_12 P _ _
+theorem es13 [LT P] [DecidableLT P] : type_of% (@Src.execStep.eq_13 P _ _) := @Src.execStep.eq_13 P _ _
+theorem es14 [LT P] [DecidableLT P] : type_of% (@Src.execStep.eq_14 P _ _) := @Src.execStep.eq_14 P _ _
+theorem es15 [LT P] [DecidableLT P] : type_of% (@Src.execStep.eq_15 P _ _) := @Src.execStep.eq_15 P _ _
+theorem es16 [LT P] [DecidableLT P] : type_of% (@Src.execStep.eq_16 P _ _) := @Src.execStep.eq_16 P _ _
+theorem es17 [LT P] [DecidableLT P] : type_of% (@Src.execStep.eq_17 P _ _) := @Src.execStep.eq_17 P _ _
+theorem es18 [LT P] [DecidableLT P] : type_of% (@Src.execStep.eq_18 P _ _) := @Src.execStep.eq_18 P _ _
+theorem es19 [LT P] [DecidableLT P] : type_of% (@Src.execStep.eq_19 P _ _) := @Src.execStep.eq_19 P _ _
+theorem es20 [LT P] [DecidableLT P] : type_of% (@Src.execStep.eq_20 P _ _) := @Src.execStep.eq_20 P _ _
+theorem es21 [LT P] [DecidableLT P] : type_of% (@Src.execStep.eq_21 P _ _) := @Src.execStep.eq_21 P _ _
+theorem es22 [LT P] [DecidableLT P] : type_of% (@Src.execStep.eq_22 P _ _) := @Src.execStep.eq_22 P _ _
+theorem es23 [LT P] [DecidableLT P] : type_of% (@Src.execStep.eq_23 P _ _) := @Src.execStep.eq_23 P _ _
+theorem es24 [LT P] [DecidableLT P] : type_of% (@Src.execStep.eq_24 P _ _) := @Src.execStep.eq_24 P _ _
+theorem es25 [LT P] [DecidableLT P] : type_of% (@Src.execStep.eq_25 P _ _) := @Src.execStep.eq_25 P _ _
+theorem es26 [LT P] [DecidableLT P] : type_of% (@Src.execStep.eq_26 P _ _) := @Src.execStep.eq_26 P _ _
+theorem es27 [LT P] [DecidableLT P] : type_of% (@Src.execStep.eq_27 P _ _) := @Src.execStep.eq_27 P _ _
+theorem es28 [LT P] [DecidableLT P] : type_of% (@Src.execStep.eq_28 P _ _) := @Src.execStep.eq_28 P _ _
+theorem es29 [LT P] [DecidableLT P] : type_of% (@Src.execStep.eq_29 P _ _) := @Src.execStep.eq_29 P _ _
+
 /-- symbolic evaluation of the interpreter -/
 syntax "src_eval" (" [" Lean.Parser.Tactic.simpLemma,* "]")? : tactic
 macro_rules
   | `(tactic| src_eval) => `(tactic| src_eval [])
   | `(tactic| src_eval [$ls,*]) => `(tactic|
-      simp only [Src.execStep, -Src.execStep.eq_9, Src.evalN, Src.evalNs, Src.evalP, Src.evalPs,
+      simp only [PQ.SrcEquiv.es1, PQ.SrcEquiv.es2, PQ.SrcEquiv.es3, PQ.SrcEquiv.es4, PQ.SrcEquiv.es5, PQ.SrcEquiv.es6, PQ.SrcEquiv.es7, PQ.SrcEquiv.es8, PQ.SrcEquiv.es10, PQ.SrcEquiv.es11, PQ.SrcEquiv.es12, PQ.SrcEquiv.es13, PQ.SrcEquiv.es14, PQ.SrcEquiv.es15, PQ.SrcEquiv.es16, PQ.SrcEquiv.es17, PQ.SrcEquiv.es18, PQ.SrcEquiv.es19, PQ.SrcEquiv.es20, PQ.SrcEquiv.es21, PQ.SrcEquiv.es22, PQ.SrcEquiv.es23, PQ.SrcEquiv.es24, PQ.SrcEquiv.es25, PQ.SrcEquiv.es26, PQ.SrcEquiv.es27, PQ.SrcEquiv.es28, PQ.SrcEquiv.es29, Src.evalN, Src.evalNs, Src.evalP, Src.evalPs,
         Src.evalB, Src.bindN, Src.bindP, Src.upd, Src.St.setS, Src.St.setN, Src.St.setP,
         bind_assoc, pure_bind, map_eq_pure_bind, Function.comp, PQ.SrcEquiv.ite_bind, PQ.SrcEquiv.error_bind,
         PQ.SrcEquiv.ok_bind, PQ.SrcEquiv.fin_normal, PQ.SrcEquiv.fin_ret, decide_eq_true_eq,
@@ -303,11 +385,15 @@ macro_rules
 /-- closes `do … = do …` goals whose two sides read the same things in the same order -/
 macro "src_close" : tactic => `(tactic|
   repeat' (first
-    | rfl
+    | with_reducible rfl
+    | (refine PQ.SrcEquiv.getU_bind_congr fun _ _ => ?_)
     | (refine PQ.SrcEquiv.bind_congr_ok fun _ _ => ?_)
     | split
+    | (simp only [*, PQ.SrcEquiv.ok_bind, PQ.SrcEquiv.error_bind, pure_bind, bind_assoc,
+        PQ.SrcEquiv.fin_ret, PQ.SrcEquiv.fin_normal])
     | (simp only [map_eq_pure_bind, Function.comp, pure_bind, bind_assoc]; refine PQ.SrcEquiv.bind_congr_ok fun _ _ => ?_)
+    | (simp only [pure_bind, bind_assoc, PQ.SrcEquiv.fin_ret, PQ.SrcEquiv.fin_normal]; rfl)
     | (simp_all; done)
-    | (simp_all [PQ.SrcEquiv.getU_ok_iff, PQ.getU, PQ.SrcEquiv.ok_bind, PQ.SrcEquiv.error_bind]; done)))
+    | (simp only [PQ.SrcEquiv.getU_ok_iff] at *; simp_all [PQ.getU, PQ.SrcEquiv.ok_bind, PQ.SrcEquiv.error_bind]; done)))
 
 end PQ.SrcEquiv
